@@ -155,6 +155,10 @@ class C19(Engine):
                 tmpl, bits, rre, pcre, ilen = SIM[cpu]
                 a = (base & 0x3fff) + 0x300 + rng.below(0x20) * max(align, 2) // bpa
                 plan["ops"].append({"op": "simstep", "addr": a, "imm": rng.below(1 << bits)})
+            elif k < 19 and rng.chance(1, 4):
+                # a blank line repeats the previous command word (readline build); after a write or print
+                # that is a command without arguments, which must change nothing
+                plan["ops"].append({"op": "blank"})
             elif k < 19:
                 plan["ops"].append({"op": "bad", "line": rng.pick([
                     "write", "write16", "write32", "print", "bogus 1 2", "write zz 5", "write 0x10", "writ 0x10 5",
@@ -291,6 +295,10 @@ class C19(Engine):
             elif op["op"] == "bad":
                 console.append(op["line"])
                 expect.append(("bad", op["line"]))
+            elif op["op"] == "blank":
+                if console and console[-1].split(" ")[0] in ("write", "write16", "write32", "print", "print16", "print32"):
+                    console.append("")
+                    expect.append(("blank", console[-2]))
         # final frame sweep: every touched 256-byte block and its neighbours
         if load:
             for a in model:
@@ -443,6 +451,10 @@ class C19(Engine):
                     res.probe("sweep_blocks")
                     if len(got) < 200:
                         res.viol("print:sweep-short:bpa%d" % bpa, cmd=console[idx], n=len(got))
+            elif kind == "blank":
+                if re.search(r"Wrote \d+ ", joined):
+                    res.viol("blank-line:wrote-memory", after=payload, out=joined[:200])
+                res.probe("blank_line_after_memory_command")
             elif kind == "bad":
                 ok = re.search(r"Unknown command|requires argument|Syntax error|Illegal number|doesn't take|Wrote 0 |Error|Illegal range", joined)
                 m = re.search(r"Wrote (\d+) ", joined)
